@@ -173,6 +173,7 @@ func (s *scheduler) spawn(fr *frame, pos token.Pos, fn value, args []value) {
 	go s.body(g, func() {
 		call(s.i, nil, pos, fn, args)
 	})
+	s.yield(fr)
 }
 
 func (s *scheduler) runnable() []*gor {
@@ -199,26 +200,54 @@ func (s *scheduler) transfer(g, next *gor) {
 	s.cur = g
 }
 
+// Scheduling policy: delay-bounded (Emmi, Qadeer, Rakamaric 2011). The base scheduler is
+// deterministic: non-preemptive, and when the running goroutine blocks or ends the next
+// runnable goroutine in round-robin order (by id, after the current one) runs. Every
+// scheduling point may spend "delays" from the path's budget: skipping j candidates of the
+// default order costs j. With budget 0 this is one canonical schedule; with budget D all
+// schedules within D delays of it are explored (the choice is part of the decision vector).
+
+// order returns the runnable goroutines in round-robin order starting after g.
+func (s *scheduler) order(g *gor) []*gor {
+	var after, before []*gor
+	for _, r := range s.gs {
+		if r.done || r.blocked || r == g {
+			continue
+		}
+		if r.id > g.id {
+			after = append(after, r)
+		} else {
+			before = append(before, r)
+		}
+	}
+	return append(after, before...)
+}
+
+// choose picks one of the candidates (already in default order), spending delays.
+func (s *scheduler) chooseGor(cands []*gor) *gor {
+	px := s.i.px
+	n := len(cands)
+	if n > px.preempt+1 {
+		n = px.preempt + 1
+	}
+	k := 0
+	if n > 1 {
+		k = px.chooseSched(n)
+	}
+	px.preempt -= k
+	return cands[k]
+}
+
 // switchAway is called when g terminates: pick someone else to run.
 func (s *scheduler) switchAway(g *gor) {
-	rs := s.runnable()
+	rs := s.order(g)
 	if len(rs) == 0 {
 		s.deadlock()
 		return
 	}
-	next := rs[s.pick(len(rs))]
+	next := s.chooseGor(rs)
 	s.cur = next
 	next.wake <- struct{}{}
-}
-
-func (s *scheduler) pick(n int) int {
-	if n <= 1 {
-		return 0
-	}
-	if s.i.px.eng.ScheduleAll {
-		return s.i.px.choose(n)
-	}
-	return 0
 }
 
 func (s *scheduler) deadlock() {
@@ -243,15 +272,14 @@ func (s *scheduler) block(fr *frame, objs ...interface{}) {
 	}
 	g.blocked = true
 	g.waitOn = objs
-	rs := s.runnable()
+	rs := s.order(g)
 	if len(rs) == 0 {
 		s.deadlock()
 		// park forever (controller will kill us)
 		<-g.wake
 		panic(killSignal{})
 	}
-	next := rs[s.pick(len(rs))]
-	s.transfer(g, next)
+	s.transfer(g, s.chooseGor(rs))
 	g.waitOn = nil
 }
 
@@ -276,39 +304,26 @@ func (s *scheduler) yield(fr *frame) {
 		return
 	}
 	g := fr.g
-	rs := s.runnable()
-	if len(rs) <= 1 {
+	rs := s.order(g)
+	if len(rs) == 0 {
 		return
 	}
-	// alternative 0: continue; alternatives 1..: switch to another goroutine
-	k := s.i.px.choose(len(rs))
-	if k == 0 {
-		return
+	// candidate 0: continue running g; then the others in round-robin order
+	next := s.chooseGor(append([]*gor{g}, rs...))
+	if next != g {
+		s.transfer(g, next)
 	}
-	var others []*gor
-	for _, r := range rs {
-		if r != g {
-			others = append(others, r)
-		}
-	}
-	s.i.px.preempt--
-	s.transfer(g, others[k-1])
 }
 
 // runOthers lets every other goroutine run until all are blocked or done.
 func (s *scheduler) runOthers(fr *frame) {
 	g := fr.g
 	for {
-		var others []*gor
-		for _, r := range s.runnable() {
-			if r != g {
-				others = append(others, r)
-			}
-		}
+		others := s.order(g)
 		if len(others) == 0 {
 			return
 		}
-		s.transfer(g, others[s.pick(len(others))])
+		s.transfer(g, s.chooseGor(others))
 	}
 }
 
@@ -432,7 +447,7 @@ func (fr *frame) selectStmt(instr *ssa.Select) value {
 		if len(ready) > 0 {
 			k := 0
 			if len(ready) > 1 {
-				k = fr.i.px.choose(len(ready))
+				k = fr.i.px.chooseSched(len(ready))
 			}
 			chosen := ready[k]
 			st := instr.States[chosen]
